@@ -138,7 +138,7 @@ package tensor
 //@   assigns nothing
 
 //@ func tensor.AP.S
-//@   props C02 C13
+//@   props C02 C04 C13 C16
 //@   mode rank ap.shape, ap.strides
 //@   config maxrank_quick 3
 //@   let n = len(ap.shape)
